@@ -244,6 +244,9 @@ func NewEngine(l *Loaded, s *Solver) *Engine {
 func (e *Engine) fresh(tag string, srt Sort) *Term {
 	name := "n_" + sanitize(tag)
 	if t, ok := e.nondet[name]; ok {
+		if t.Sort != srt {
+			unsupported("harness tag %q is used for two symbolic inputs of different types", tag)
+		}
 		return t
 	}
 	t := Var(name, srt)
@@ -759,12 +762,35 @@ func (e *Engine) step(st *State) (forks []*State) {
 	case *ssa.Index:
 		return e.index(st, fr, in)
 	case *ssa.Slice:
+		// a symbolic bound (e.g. a count merged from several callee paths): take the value the path condition forces, or
+		// fork over the feasible values and re-execute the instruction with a concrete bound
+		for _, b := range []ssa.Value{in.Low, in.High, in.Max} {
+			if b == nil {
+				continue
+			}
+			if _, isConst := b.(*ssa.Const); isConst {
+				continue
+			}
+			t := asTerm(e.val(fr, b))
+			if t.IsConst() {
+				continue
+			}
+			if c := e.concretize(st, t); c.IsConst() {
+				fr.regs[b] = c
+				continue
+			}
+			return e.forkOnValue(st, b, t, 0, 64)
+		}
 		fr.regs[in] = e.sliceOp(st, fr, in)
 	case *ssa.MakeSlice:
 		n, ok := e.concreteInt(st, e.val(fr, in.Len), "make len")
 		c, ok2 := e.concreteInt(st, e.val(fr, in.Cap), "make cap")
 		if !ok || !ok2 {
-			unsupported("make slice with symbolic size")
+			return e.makeSliceSymbolic(st, fr, in)
+		}
+		if n < 0 || c < n {
+			e.fail(st, "panic", fmt.Sprintf("makeslice: len %d / cap %d out of range", n, c))
+			return nil
 		}
 		elem := in.Type().Underlying().(*types.Slice).Elem()
 		arr := ArrayVal{Elems: make([]Value, c)}
@@ -927,6 +953,122 @@ func (e *Engine) step(st *State) (forks []*State) {
 	return forks
 }
 
+// makeSliceSymbolic: make([]T, len, cap) with symbolic sizes. A negative size or cap < len is the run-time panic
+// "makeslice: len/cap out of range"; the remaining feasible sizes (<= 16) are explored one per fork.
+func (e *Engine) makeSliceSymbolic(st *State, fr *Frame, in *ssa.MakeSlice) []*State {
+	const limit = 16
+	ln := Resize(asTerm(e.val(fr, in.Len)), 64, true)
+	cp := Resize(asTerm(e.val(fr, in.Cap)), 64, true)
+	bad := Or(BVCmp("bvslt", ln, ConstBV(0, 64)), BVCmp("bvslt", cp, ln))
+	if !bad.IsFalse() {
+		b := st.clone()
+		b.pc = append(b.pc, bad)
+		e.fail(b, "panic", "makeslice: len or cap out of range (negative size, or cap < len)")
+	}
+	big := BVCmp("bvsgt", cp, ConstBV(limit, 64))
+	if r := e.S.Check(st.pc, And(Not(bad), big)); r != Unsat {
+		e.S.EndModel()
+		unsupported("make slice with a symbolic size that may exceed %d", limit)
+	}
+	e.S.EndModel()
+	type alt struct {
+		n, c int
+		cond *Term
+	}
+	var live []alt
+	for c := 0; c <= limit; c++ {
+		cc := Eq(cp, ConstBV(uint64(c), 64))
+		if r := e.S.Check(st.pc, And(Not(bad), cc)); r == Unsat {
+			e.S.EndModel()
+			continue
+		}
+		e.S.EndModel()
+		for n := 0; n <= c; n++ {
+			cond := And(cc, Eq(ln, ConstBV(uint64(n), 64)))
+			if cond.IsFalse() {
+				continue
+			}
+			if !cond.IsTrue() {
+				r := e.S.Check(st.pc, cond)
+				e.S.EndModel()
+				if r == Unsat {
+					continue
+				}
+			}
+			live = append(live, alt{n, c, cond})
+		}
+	}
+	if len(live) == 0 {
+		st.dead = true
+		return nil
+	}
+	elem := in.Type().Underlying().(*types.Slice).Elem()
+	var forks []*State
+	for k, a := range live {
+		tgt := st
+		if k < len(live)-1 {
+			tgt = st.clone()
+			forks = append(forks, tgt)
+		}
+		if !a.cond.IsTrue() {
+			tgt.pc = append(tgt.pc, a.cond)
+		}
+		arr := ArrayVal{Elems: make([]Value, a.c)}
+		for i := range arr.Elems {
+			arr.Elems[i] = zeroValue(elem)
+		}
+		tgt.top().regs[in] = SliceVal{Obj: tgt.alloc(arr), Len: a.n, Cap: a.c}
+		tgt.top().ip++
+	}
+	return forks
+}
+
+// forkOnValue splits st by the value of the integer register v (term t) over lo..hi; values outside that window make
+// the job inconclusive. The current instruction is re-executed on every fork (ip is not advanced).
+func (e *Engine) forkOnValue(st *State, v ssa.Value, t *Term, lo, hi int) []*State {
+	w := t.Sort.Width
+	outside := Or(BVCmp("bvslt", t, ConstBV(uint64(lo), w)), BVCmp("bvsgt", t, ConstBV(uint64(hi), w)))
+	neg := BVCmp("bvslt", t, ConstBV(0, w))
+	if r := e.S.Check(st.pc, And(outside, Not(neg))); r != Unsat {
+		e.S.EndModel()
+		unsupported("symbolic bound may exceed %d", hi)
+	}
+	e.S.EndModel()
+	var live []int
+	if r := e.S.Check(st.pc, neg); r != Unsat {
+		live = append(live, -1)
+	}
+	e.S.EndModel()
+	for x := lo; x <= hi; x++ {
+		r := e.S.Check(st.pc, Eq(t, ConstBV(uint64(x), w)))
+		e.S.EndModel()
+		if r != Unsat {
+			live = append(live, x)
+		}
+	}
+	if len(live) == 0 {
+		st.dead = true
+		return nil
+	}
+	var forks []*State
+	for k, x := range live {
+		tgt := st
+		if k < len(live)-1 {
+			tgt = st.clone()
+			forks = append(forks, tgt)
+		}
+		if x < 0 {
+			// any negative value: the instruction will report its own out-of-range panic on -1
+			tgt.pc = append(tgt.pc, neg)
+			tgt.top().regs[v] = ConstBV(^uint64(0), w)
+			continue
+		}
+		tgt.pc = append(tgt.pc, Eq(t, ConstBV(uint64(x), w)))
+		tgt.top().regs[v] = ConstBV(uint64(x), w)
+	}
+	return forks
+}
+
 func nilKey(in *ssa.Next) Value {
 	return zeroValue(in.Type().(*types.Tuple).At(1).Type())
 }
@@ -1053,6 +1195,19 @@ func (e *Engine) valuesEq(a, b Value) *Term {
 			if x.Atom != nil && y.Atom != nil && x.Pre == y.Pre && x.Suf == y.Suf {
 				return Eq(x.Atom, y.Atom)
 			}
+			// pre+atom+suf against a concrete string: equal iff the string has that shape and the atom is its middle
+			for _, p := range [][2]StringVal{{x, y}, {y, x}} {
+				d, o := p[0], p[1]
+				if d.Atom == nil || (d.Pre == "" && d.Suf == "") {
+					continue
+				}
+				if c, ok := o.Concrete(); ok {
+					if len(c) < len(d.Pre)+len(d.Suf) || !strings.HasPrefix(c, d.Pre) || !strings.HasSuffix(c, d.Suf) {
+						return FalseT
+					}
+					return Eq(d.Atom, ConstInt(int64(e.intern(c[len(d.Pre):len(c)-len(d.Suf)]))))
+				}
+			}
 			if r := e.atomEqBytes(x, y); r != nil {
 				return r
 			}
@@ -1105,7 +1260,7 @@ func (e *Engine) valuesEq(a, b Value) *Term {
 		return ConstBool(x.Obj == y.Obj)
 	case FuncVal:
 		y := b.(FuncVal)
-		return ConstBool(x.Fn == nil && y.Fn == nil && x.Builtin == nil && y.Builtin == nil)
+		return ConstBool(x.Fn == nil && y.Fn == nil && x.Builtin == nil && y.Builtin == nil && !x.Noop && !y.Noop)
 	case OpaqueVal:
 		y, ok := b.(OpaqueVal)
 		return ConstBool(ok && x.ID == y.ID)
@@ -1225,6 +1380,12 @@ func (e *Engine) binop(st *State, op token.Token, a, b Value, typ types.Type) Va
 				unsupported("concatenation of two atoms")
 			}
 			return StringVal{Bytes: append(append([]*Term(nil), sa.Bytes...), sb.Bytes...)}
+		case token.LSS, token.GTR, token.LEQ, token.GEQ:
+			if sa.Atom != nil || sb.Atom != nil {
+				unsupported("ordering comparison on an atom (atoms have identity, not content)")
+			}
+		}
+		switch op {
 		case token.LSS:
 			return e.stringLess(sa, sb)
 		case token.GTR:
@@ -1357,6 +1518,15 @@ func (e *Engine) convert(st *State, v Value, from, to types.Type) Value {
 			if x.Obj != 0 {
 				arr := st.heap[x.Obj].(ArrayVal)
 				for i := 0; i < x.Len; i++ {
+					// bytes of unknown content produced by a library model (regexp ExpandString): the string is that text
+					if ch, isChunk := arr.Elems[x.Off+i].(OpaqueVal); isChunk && ch.Tag == "atomchunk" {
+						if x.Len != 1 {
+							unsupported("[]byte -> string of opaque text mixed with other bytes")
+						}
+						return ch.Data
+					}
+				}
+				for i := 0; i < x.Len; i++ {
 					bs[i] = asTerm(arr.Elems[x.Off+i])
 				}
 			}
@@ -1371,6 +1541,9 @@ func (e *Engine) convert(st *State, v Value, from, to types.Type) Value {
 	}
 	if sl, ok := to.Underlying().(*types.Slice); ok {
 		if s, ok2 := v.(StringVal); ok2 {
+			if s.Atom != nil {
+				unsupported("[]byte of an atom (atoms have identity, not content)")
+			}
 			if w, _, _ := intWidth(sl.Elem()); w == 8 {
 				arr := ArrayVal{Elems: make([]Value, len(s.Bytes))}
 				for i, b := range s.Bytes {
@@ -1492,6 +1665,9 @@ func (e *Engine) index(st *State, fr *Frame, in *ssa.Index) []*State {
 	case ArrayVal:
 		elems = c.Elems
 	case StringVal:
+		if c.Atom != nil {
+			unsupported("indexing an atom (atoms have identity, not content)")
+		}
 		elems = make([]Value, len(c.Bytes))
 		for i, b := range c.Bytes {
 			elems[i] = b
@@ -1550,6 +1726,9 @@ func (e *Engine) sliceOp(st *State, fr *Frame, in *ssa.Slice) Value {
 	}
 	switch c := x.(type) {
 	case StringVal:
+		if c.Atom != nil {
+			unsupported("slicing an atom (atoms have identity, not content)")
+		}
 		lo, hi := get(in.Low, 0), get(in.High, len(c.Bytes))
 		if lo < 0 || hi > len(c.Bytes) || lo > hi {
 			e.fail(st, "panic", fmt.Sprintf("slice bounds out of range [%d:%d] with length %d", lo, hi, len(c.Bytes)))
@@ -1596,6 +1775,9 @@ func (e *Engine) mapObj(st *State, m MapVal) *MapObj {
 func (e *Engine) lookup(st *State, fr *Frame, in *ssa.Lookup) []*State {
 	x := e.val(fr, in.X)
 	if s, ok := x.(StringVal); ok {
+		if s.Atom != nil {
+			unsupported("indexing an atom (atoms have identity, not content)")
+		}
 		idx := Resize(asTerm(e.val(fr, in.Index)), 64, true)
 		if !idx.IsConst() {
 			unsupported("symbolic string index")
@@ -1778,6 +1960,9 @@ func (e *Engine) rangeOp(st *State, fr *Frame, in *ssa.Range) Value {
 	x := e.val(fr, in.X)
 	switch c := x.(type) {
 	case StringVal:
+		if c.Atom != nil {
+			unsupported("range over an atom (atoms have identity, not content)")
+		}
 		it := &IterVal{}
 		for i, b := range c.Bytes {
 			// ASCII assumption: one rune per byte; enforced by a recorded obligation
